@@ -281,3 +281,36 @@ Theorem wr_dict_indices_shape k codes :
   wr_dict_indices k codes
   = (8 * N.of_nat k) :: uleb_enc (2 * ((N.of_nat (length codes) + 7) / 8) + 1) ++ wr_codes k codes.
 Proof. reflexivity. Qed.
+
+(* the hand copy of the skip shortcut (used when the translator refuses the source) has the same value *)
+Lemma more_bytes_loop f : forall m, m < 2 ^ N.of_nat f -> forall fuel, (f <= fuel)%nat ->
+  more_bytes fuel (m / 128) = N.of_nat (length (uleb_enc_f f m)) - 1.
+Proof.
+  induction f as [|f IH]; intros m Hm fuel Hf.
+  - change (N.of_nat 0) with 0 in Hm. rewrite N.pow_0_r in Hm. assert (m = 0) by lia. subst m.
+    change (0 / 128) with 0. destruct fuel; reflexivity.
+  - cbn [uleb_enc_f]. destruct (N.ltb_spec m 128) as [L|L].
+    + rewrite N.div_small by exact L. destruct fuel; reflexivity.
+    + destruct fuel as [|fuel]; [lia|]. cbn [more_bytes].
+      destruct (N.eqb_spec (m / 128) 0) as [E|_]; [lia|].
+      rewrite IH.
+      * cbn [length]. assert (1 <= N.of_nat (length (uleb_enc_f f (m / 128)))); [|lia].
+        destruct f; cbn [uleb_enc_f]; [cbn; lia|]. destruct (m / 128 <? 128); cbn [length]; lia.
+      * replace (N.of_nat (S f)) with (1 + N.of_nat f) in Hm by lia.
+        rewrite N.pow_add_r, N.pow_1_r in Hm. apply N.div_lt_upper_bound; lia.
+      * lia.
+Qed.
+
+Theorem skip_hand_is_block_len num :
+  skip_hand num = N.of_nat (length (wr_defs_nonull_v1 num)).
+Proof.
+  rewrite defs_nonull_v1_length. unfold skip_hand.
+  replace (num / 64) with ((2 * num) / 128) by lia.
+  rewrite (more_bytes_loop (N.to_nat (N.size (2 * num)))).
+  - fold (uleb_enc (2 * num)).
+    assert (1 <= N.of_nat (length (uleb_enc (2 * num)))); [|lia].
+    unfold uleb_enc. destruct (N.to_nat (N.size (2 * num))); cbn [uleb_enc_f]; [cbn; lia|].
+    destruct (2 * num <? 128); cbn [length]; lia.
+  - rewrite N2Nat.id. apply N.size_gt.
+  - destruct num as [|p]; cbn; lia.
+Qed.
